@@ -92,7 +92,28 @@ pub fn emit<W: Write>(c: &mut Cases<W>, cfg: &FileCfg, entries: &[(Vec<u8>, Vec<
     c.bump(&format!("levels{}", if cfg.levels > 4 { 9 } else { cfg.levels }), 1);
     c.bump(if cfg.unclamped { "bs.unclamped" } else { "bs.public" }, 1);
     c.bump("entries.total", entries.len() as u64);
-    match write_file(cfg, entries) {
+    // C09: every fourth file is written through a sink that accepts only part of each buffer
+    let outcome = if with_old && c.count % 4 == 0 {
+        let ctl = crate::c_io::Ctl::new();
+        *ctl.rng.borrow_mut() = Some(Rng::new(c.count));
+        ctl.mode.set(3);
+        let r = catch(|| -> Result<Vec<u8>, String> {
+            let mut w = cfg.builder().build(crate::c_io::Sched::new(Vec::new(), ctl.clone()));
+            for (k, v) in entries {
+                w.insert(k, v).map_err(|e| io_class(&e))?;
+            }
+            Ok(w.into_inner().map_err(|e| io_class(&e))?.data.into_inner())
+        });
+        c.bump("partial_write_sink", 1);
+        match r {
+            Ok(Ok(f)) => WriteOutcome::File(f),
+            Ok(Err(e)) => WriteOutcome::Err(e),
+            Err(_) => write_file(cfg, entries),
+        }
+    } else {
+        write_file(cfg, entries)
+    };
+    match outcome {
         WriteOutcome::File(f) => {
             c.line(&format!("impl file {}", hex(&f)));
             ztable(c, cfg.codec, &f);
